@@ -105,18 +105,73 @@ theorem partialEscape_eq_nil {s : Text} : partialEscape s = [] ↔ s = [] := by
     repeat' split
     all_goals simp
 
+
+/-! ## line-end normalisation of the reader (`unescape_text`) -/
+
+theorem normEol_of_no_cr (s : Text) (h : ∀ c ∈ s, c ≠ '\r') : normEol s = s := by
+  fun_induction normEol s with
+  | case1 => rfl
+  | case2 cs _ => exact absurd rfl (h '\r' (by simp))
+  | case3 c cs _ ih =>
+    have hc : c ≠ '\r' := h c (by simp)
+    rw [if_neg hc, ih (fun d hd => h d (by simp [hd]))]
+
+theorem escChar_no_cr (c : Char) : ∀ d ∈ escChar c, d ≠ '\r' := by
+  intro d hd
+  unfold escChar at hd
+  repeat' split at hd
+  all_goals simp at hd
+  all_goals (try (rcases hd with h | h | h | h | h | h <;> subst h <;> decide))
+  all_goals (try (rcases hd with h | h | h | h | h <;> subst h <;> decide))
+  all_goals (try (rcases hd with h | h | h | h <;> subst h <;> decide))
+  all_goals (subst hd; assumption)
+
+theorem pescChar_no_cr (c : Char) : ∀ d ∈ pescChar c, d ≠ '\r' := by
+  intro d hd
+  unfold pescChar at hd
+  repeat' split at hd
+  all_goals simp at hd
+  all_goals (try (rcases hd with h | h | h | h | h <;> subst h <;> decide))
+  all_goals (try (rcases hd with h | h | h | h <;> subst h <;> decide))
+  all_goals (subst hd; assumption)
+
+theorem escape_no_cr (s : Text) : ∀ d ∈ escape s, d ≠ '\r' := by
+  intro d hd
+  simp only [escape, List.mem_flatMap] at hd
+  obtain ⟨c, _, hd⟩ := hd
+  exact escChar_no_cr c d hd
+
+theorem partialEscape_no_cr (s : Text) : ∀ d ∈ partialEscape s, d ≠ '\r' := by
+  intro d hd
+  simp only [partialEscape, List.mem_flatMap] at hd
+  obtain ⟨c, _, hd⟩ := hd
+  exact pescChar_no_cr c d hd
+
+/-- what the writer emits contains no literal carriage return, so the reader's line-end
+    normalisation leaves it alone and the round trip is exact for every text -/
+theorem unescapeText_escape (s : Text) : unescapeText (escape s) = some s := by
+  unfold unescapeText; rw [normEol_of_no_cr _ (escape_no_cr s)]; exact unescape_escape s
+
+theorem unescapeText_partialEscape (s : Text) : unescapeText (partialEscape s) = some s := by
+  unfold unescapeText; rw [normEol_of_no_cr _ (partialEscape_no_cr s)]; exact unescape_partialEscape s
+
+/-- a literal CR LF in character data is ONE line feed for the application (XML 1.0 2.11) while
+    a carriage return written as a reference survives -/
+example : unescapeText ['a', '\r', '\n', 'b', '\r', 'c', '&', '#', '1', '3', ';'] =
+    some ['a', '\n', 'b', '\n', 'c', '\r'] := by decide
+
 /-- untrimmed reading returns what was escaped, whatever the text (blank, padded, empty) -/
 theorem readText_false_escape (s : Text) : readText false (escape s) = some s := by
   unfold readText textEvent
   by_cases h : escape s = []
   · have := escape_eq_nil.1 h; subst this; simp [escape]
-  · simp only [Bool.false_eq_true, if_false, if_neg h]; exact unescape_escape s
+  · simp only [Bool.false_eq_true, if_false, if_neg h]; exact unescapeText_escape s
 
 theorem readText_false_partialEscape (s : Text) : readText false (partialEscape s) = some s := by
   unfold readText textEvent
   by_cases h : partialEscape s = []
   · have := partialEscape_eq_nil.1 h; subst this; simp [partialEscape]
-  · simp only [Bool.false_eq_true, if_false, if_neg h]; exact unescape_partialEscape s
+  · simp only [Bool.false_eq_true, if_false, if_neg h]; exact unescapeText_partialEscape s
 
 theorem dropWhile_eq_self_of_all_false {α} (p : α → Bool) (l : List α) (h : ∀ a ∈ l, p a = false) :
     l.dropWhile p = l := by
@@ -168,13 +223,13 @@ theorem readText_true_escape (s : Text) (hne : s ≠ []) (h : ∀ c ∈ s, isXml
     readText true (escape s) = some s := by
   unfold readText
   rw [textEvent_true_of_no_ws _ (fun e => hne (escape_eq_nil.1 e)) (escape_no_ws s h)]
-  exact unescape_escape s
+  exact unescapeText_escape s
 
 theorem readText_true_partialEscape (s : Text) (hne : s ≠ []) (h : ∀ c ∈ s, isXmlWs c = false) :
     readText true (partialEscape s) = some s := by
   unfold readText
   rw [textEvent_true_of_no_ws _ (fun e => hne (partialEscape_eq_nil.1 e)) (partialEscape_no_ws s h)]
-  exact unescape_partialEscape s
+  exact unescapeText_partialEscape s
 
 /-- with trimming ON, padded text does NOT survive: the defect repaired by fix 3 / fix 4 -/
 theorem readText_true_trims : readText true (partialEscape [' ', 'x', ' ']) = some ['x'] := by decide
